@@ -286,5 +286,42 @@ def r19_4(ctx):
     (ctx.ok(construct, p.loc(), nontrivial=False) if ok else ctx.bad(construct, "per-project sets are pre-filled", p.loc()))
 
 
+def r19_5(ctx):
+    """R19.5 scope collection is exhaustive and order-free: (a) no loop modifies the list it iterates over (the explicit
+    rename files are removed from `files` while iterating a copy); (b) project roots are detected from the whole
+    CMakeLists.txt; (c) the walks of the global and local builders are never pruned."""
+    from .common import no_mutation_of_iterated
+    n = no_mutation_of_iterated(ctx, MOD, "an element after each removed one is skipped - which rename files are read depends on the order of the arguments")
+    if n < 5:
+        raise AnalysisError(f"only {n} loops found in {MOD}")
+    repo = ctx.repo
+    f = repo.func(f"{MOD}:_is_project_root")
+    ctx.analysed(f.qual)
+    reads = [x for x in ast.walk(f.node) if isinstance(x, ast.Call) and isinstance(x.func, ast.Attribute) and x.func.attr in ("read", "readline", "readlines")]
+    construct = "_is_project_root/project() is searched in the whole CMakeLists.txt"
+    ok = bool(reads) and all(x.func.attr == "read" and not x.args and not x.keywords for x in reads)
+    (ctx.ok(construct, f.loc(reads[0]) if reads else f.loc()) if ok else
+     ctx.bad(construct, f"`{ast.unparse(reads[0]) if reads else '?'}` reads only part of the file: a nested project whose project() call follows a long preamble is not "
+             "a project root and its files are judged in the enclosing project's scope", f.loc(reads[0]) if reads else f.loc()))
+    for name in ("_build_global_deprecated", "_build_local_deprecated"):
+        g = repo.func(f"{MOD}:{name}")
+        ctx.analysed(g.qual)
+        walks = [x for x in ast.walk(g.node) if isinstance(x, ast.For) and "os.walk(" in ast.unparse(x.iter)]
+        construct = f"{name}/the directory walk is not pruned"
+        bad = None
+        for w in walks:
+            dn = ast.unparse(w.target.elts[1]) if isinstance(w.target, ast.Tuple) and len(w.target.elts) == 3 else None
+            if dn and dn != "_":
+                for x in ast.walk(w):
+                    if isinstance(x, ast.Call) and isinstance(x.func, ast.Attribute) and ast.unparse(x.func.value) == dn and x.func.attr in ("clear", "remove", "pop"):
+                        bad = x
+                    if isinstance(x, (ast.Assign, ast.Delete)) and any(ast.unparse(t).startswith(dn + "[") for t in (x.targets if hasattr(x, "targets") else [])):
+                        bad = x
+            if any(isinstance(x, ast.Break) for x in ast.walk(w)):
+                bad = w
+        (ctx.bad(construct, f"`{ast.unparse(bad)[:60]}` stops os.walk from descending: rename files deeper in the tree are missing from the scope", g.loc(bad))
+         if bad is not None else ctx.ok(construct, g.loc(walks[0]) if walks else g.loc()))
+
+
 def rules():
-    return [("R19.1", r19_1, 3), ("R19.2", r19_2, 7), ("R19.3", r19_3, 4), ("R19.4", r19_4, 3)]
+    return [("R19.1", r19_1, 3), ("R19.2", r19_2, 7), ("R19.3", r19_3, 4), ("R19.4", r19_4, 3), ("R19.5", r19_5, 8)]
